@@ -429,9 +429,9 @@ def krConn (cfgF : List String) (st : KrState) (acceptKey : Nat) (implItem : Str
   | _ => { st with out := st.out ++ ["bad-item"] }
 
 def runKr (f : List String) (impl : String) : Ans :=
-  if f.length != 14 then { model := "bad-op", verdict := "skip" } else
+  if f.length != 15 then { model := "bad-op", verdict := "skip" } else
   let cfgF := f.take 13
-  let items := (f.getD 13 "").splitOn ","
+  let items := (f.getD 14 "").splitOn ","
   let implItems := impl.splitOn " || "
   let step (st : KrState) (p : String × String) : KrState :=
     let it := p.1
